@@ -76,6 +76,10 @@ def err_kind(exc):
     return "Other:" + type(exc).__name__
 
 
+def _same(a, b):
+    return (pd.isna(a) and pd.isna(b)) or a == b
+
+
 class Unbound(Exception):
     pass
 
@@ -390,6 +394,61 @@ class Impl:
             if how == "unit":
                 return ("pairs", [((Fraction(iv.left), Fraction(iv.right)), val(v)) for iv, v in res.items()])
             return ("vals", [val(v) for v in res.values])
+        if cmd == "views":
+            return self.views(self.get(toks[1]))
+        if cmd == "arraybin":
+            op, other = toks[1:3]
+            rest = toks[3:]
+            if "/" in rest:
+                i = rest.index("/")
+                ms, tail = rest[:i], rest[i + 1:]
+            else:
+                ms, tail = rest, []
+            members = [self.get(m) for m in ms]
+            arr = sc.StairsArray(members)
+            if other == "scalar":
+                oth = self.operand(tail[0])
+            elif other == "stairs":
+                oth = members[0]
+            else:
+                oth = sc.StairsArray(members[::-1])
+            res = self.binop(op, arr, oth, "dunder" if op not in ("and", "or", "xor") else "method")
+            if isinstance(res, Exception):
+                raise res
+            return ("frames", [self.frame_of(x) for x in res])
+        if cmd == "arraysample":
+            kind = toks[1]
+            rest = toks[3:]
+            i = rest.index("/")
+            members = [self.get(m) for m in rest[:i]]
+            xs = [d.pt(F(t)) for t in rest[i + 1:]]
+            arr = sc.StairsArray(members)
+            if o.get("top") == "1":
+                df = sc.sample(members, xs) if kind == "sample" else sc.limit(members, xs, side=kind[5:])
+            elif kind == "sample":
+                df = arr.sample(xs)
+            else:
+                df = arr.limit(xs, side=kind[5:])
+            return ("vals", [val(v) for row in df.values for v in row])
+        if cmd == "covm":
+            which, lo, hi = toks[1:4]
+            members = [self.get(m) for m in toks[4:]]
+            fn = sc.cov if which == "cov" else sc.corr
+            mat = np.asarray(fn(members, where=self.window(lo, hi)))
+            n = len(members)
+            for i in range(n):
+                for j in range(n):
+                    a, b2 = mat[i, j], mat[j, i]
+                    if not ((np.isnan(a) and np.isnan(b2)) or a == b2):
+                        return ("err", "Other:AsymmetricMatrix")
+                if which == "corr" and mat[i, i] != 1:
+                    return ("err", "Other:CorrDiagonalNotOne")
+            outv = []
+            for i in range(n):
+                for j in range(n):
+                    if (which == "cov" and i <= j) or (which == "corr" and i < j):
+                        outv.append(val(mat[i, j]))
+            return ("vals", outv)
         if cmd == "q":
             f = self.get(toks[1])
             name = toks[2]
@@ -498,6 +557,42 @@ class Impl:
         raise ValueError("bad statement: " + " ".join(toks))
 
     # ------------------------------------------------------------------ pieces
+    def views(self, f):
+        """all structural views of the object itself, cross-checked against each other (C03)"""
+        frame = f.to_frame()
+        pts = list(f.step_points)
+        sv = f.step_values
+        scs = f.step_changes
+        init = f.initial_value
+        n = f.number_of_steps
+        starts, ends, values = list(frame["start"]), list(frame["end"]), list(frame["value"])
+        if n != len(pts):
+            return ("err", "views:number_of_steps")
+        if len(starts) != n + 1 or starts[0] is not -sc.inf or ends[-1] is not sc.inf:
+            return ("err", "views:frame-ends")
+        if starts[1:] != ends[:-1] or [self.tick(x) for x in starts[1:]] != [self.tick(p) for p in pts]:
+            return ("err", "views:frame-tiling")
+        ticks = [self.tick(p) for p in pts]
+        if any(a >= b for a, b in zip(ticks, ticks[1:])):
+            return ("err", "views:not-increasing")
+        if not _same(values[0], init):
+            return ("err", "views:initial_value")
+        if len(sv) != n or any(not _same(a, b) for a, b in zip(values[1:], list(sv.values))):
+            return ("err", "views:step_values")
+        if [self.tick(x) for x in sv.index] != ticks or [self.tick(x) for x in scs.index] != ticks:
+            return ("err", "views:index")
+        if len(scs) != n:
+            return ("err", "views:step_changes-length")
+        allv = [init] + list(sv.values)
+        if not any(pd.isna(v) for v in allv):
+            run = float(init)
+            for dlt, v in zip(list(scs.values), list(sv.values)):
+                run += float(dlt)
+                if abs(run - float(v)) > 1e-9:
+                    return ("err", "views:step_changes-sum")
+        rows = [(t, val(v)) for t, v in zip(ticks, values[1:])]
+        return ("frame", "L" if f.closed == "left" else "R", val(init), rows)
+
     def binop(self, op, x, y, form):
         import operator as _op
         dunder = {"add": _op.add, "sub": _op.sub, "mul": _op.mul, "div": _op.truediv,
@@ -508,7 +603,7 @@ class Impl:
                 "and": "logical_and", "or": "logical_or", "xor": "logical_xor"}
         rmeth = {"add": "radd", "sub": "rsubtract", "mul": "rmultiply", "div": "rdivide",
                  "and": "logical_rand", "or": "logical_ror", "xor": "logical_rxor"}
-        xs, ys = isinstance(x, sc.Stairs), isinstance(y, sc.Stairs)
+        xs, ys = isinstance(x, (sc.Stairs, sc.StairsArray)), isinstance(y, (sc.Stairs, sc.StairsArray))
         if not xs and not ys:
             raise ValueError("two scalars")
         if form == "method":
@@ -532,7 +627,7 @@ class Impl:
             res = call(pd.Series(pts))
         elif form == "index":
             res = call(pts, include_index=True)
-            return [val(v) for v in res.values]
+            return [val(v) for v in list(getattr(res, "values", res))]
         else:
             raise ValueError(form)
         return [val(v) for v in list(res)]
